@@ -28,6 +28,13 @@ MODES = {
     "sys_exit_bare": ("sys.exit()", True),
     "raise_systemexit_0": ("raise SystemExit(0)", True),
     "builtin_exit_0": ("exit(0)", True),
+    # statuses that are integers without being of type int
+    "sys_exit_false": ("sys.exit(False)", True),
+    "sys_exit_intenum_0": ("import enum\nclass _Rc(enum.IntEnum):\n    OK = 0\n    BAD = 2\nsys.exit(_Rc.OK)", True),
+    "sys_exit_true": ("sys.exit(True)", False),
+    "sys_exit_intenum_2": ("import enum\nclass _Rc(enum.IntEnum):\n    OK = 0\n    BAD = 2\nsys.exit(_Rc.BAD)", False),
+    # an exception raised inside a function decorated with the library's own @benchmark
+    "exception_inside_benchmark": ("from pysnark.runtime import benchmark\n@benchmark()\ndef _bf():\n    PrivVal(2) * PrivVal(3)\n    raise ValueError('boom')\n_bf()", False),
     "sys_exit_3": ("sys.exit(3)", False),
     "sys_exit_msg": ("sys.exit('stop: invalid input')", False),
     "sys_exit_empty_str": ("sys.exit('')", False),
@@ -78,6 +85,10 @@ OBSERVE = {
 CONTROL_IMPORTS = "PrivVal = PubVal = lambda v: v\nif_then_else = lambda c, a, b: a\nclass _V(int):\n    def val(self): return self\n"
 
 
+# what the control run (same termination, no pysnark) executes where the script's text needs the library
+CONTROL_INS = {
+    "exception_inside_benchmark": "def _bf():\n    raise ValueError('boom')\n_bf()",
+}
 PRE_IMPORT = {
     "exception_with_failing_custom_excepthook": "def _apphook(tp, ex, tb):\n    raise RuntimeError('application hook failed')\nsys.excepthook = _apphook\n",
 }
@@ -89,7 +100,7 @@ def make_script(stmts, k, mode, control=False, observe=None):
     if control:
         lines = ["import sys", PRE_IMPORT.get(mode, "")]
         if ins and MODES[mode][1] is not None:
-            lines.append(ins)
+            lines.append(CONTROL_INS.get(mode, ins))
         return "\n".join(lines) + "\n"
     src = PRELUDE + (OBSERVE_PRE if observe else "") + PRE_IMPORT.get(mode, "") + IMPORTS + (OBSERVE[observe] if observe else "") + "\n".join(body) + "\n"
     if ins:
